@@ -608,7 +608,8 @@ func checkForceDirtyEntries(c *Ctx, p *Prog, rule, tname string) {
 			for _, e := range entries {
 				if reachOf[e][f] {
 					from = append(from, e.Name())
-					if _, ok := allowed[e.Name()]; !ok {
+					if _, ok := allowed[e.Name()]; !ok || (e.Name() == "LockRegion" && kind != "UnlockCell") {
+						// (LockRegion repaints what it unlocks, nothing else)
 						foreign = append(foreign, e.Name())
 					}
 				}
@@ -646,7 +647,9 @@ func checkForceDirtyEntries(c *Ctx, p *Prog, rule, tname string) {
 			c.Check(ok, rule, key, p.pos(in.Pos()), fmt.Sprintf("reached from %v; %v do(es) not repaint by contract, and the site is not behind a test that the value being set differs from the one in force: the next Show rewrites cells that did not change", from, foreign))
 		})
 	}
-	if n == 0 {
+	if n == 0 && tname == "baseScreen" {
+		c.Trivial(rule, tname+":force-dirty-sites", "-", "no direct force-dirty call in the shared layer (LockRegion may reach UnlockCell through a method value)")
+	} else if n == 0 {
 		c.Undecided(rule, tname+":force-dirty-sites", "-", "no force-dirty site found")
 	}
 }
@@ -1293,6 +1296,43 @@ func checkWidePaddingFromMainRune(c *Ctx, p *Prog, rule string) {
 				continue
 			}
 			seen[cond] = true
+			// the bytes written compared with a constant ("?"): they must be the main rune's bytes, not
+			// what the buffer holds after the combining runes were appended to it
+			if bo, isBO := cond.(*ssa.BinOp); isBO && (bo.Op == token.EQL || bo.Op == token.NEQ) {
+				for _, pair := range [][2]ssa.Value{{bo.X, bo.Y}, {bo.Y, bo.X}} {
+					if _, isC := constString(pair[1]); !isC {
+						continue
+					}
+					for _, src := range phiSourcesAll(stripConv(pair[0])) {
+						call, isCall := derefCell(src).(*ssa.Call)
+						if !isCall {
+							continue
+						}
+						h := call.Call.StaticCallee()
+						if h == nil || h.Pkg != p.Tcell {
+							continue
+						}
+						var runeArg ssa.Value
+						for i, par := range h.Params {
+							if bt, isB := par.Type().Underlying().(*types.Basic); isB && bt.Kind() == types.Int32 && i < len(call.Call.Args) {
+								runeArg = call.Call.Args[i]
+							}
+						}
+						if runeArg == nil {
+							continue
+						}
+						n++
+						for _, rs := range append(phiSources(runeArg), derefCell(runeArg)) {
+							if _, isPhi := rs.(*ssa.Phi); isPhi {
+								continue
+							}
+							if rs != mainc {
+								bad += "the bytes compared at " + p.pos(cond.Pos()) + " include the encoding of " + valName(runeArg) + " (" + p.pos(call.Pos()) + "), not of the main rune alone; "
+							}
+						}
+					}
+				}
+			}
 			for _, src := range append(phiSources(cond), cond) {
 				ex, ok := derefCell(src).(*ssa.Extract)
 				if !ok {
